@@ -29,6 +29,9 @@ def load_specs(relpath, natives):
 
 
 def main(handlers):
+    import logging
+
+    logging.disable(logging.CRITICAL)
     req = json.load(sys.stdin)
     fn = req.get("function")
     h = handlers.get(fn) or handlers.get("*")
